@@ -37,7 +37,7 @@ def run(ck):
                        "defaults and, for ML training, with a binding user-set floor t -> a^2 t given per feature or per cell",
                        "MAP with frozen means and adapted variances is excluded: C05's formula is not shift-equivariant there"]
     # ---------------- M1
-    smp = rng.sample(gm.samples(3), 40 if quick else 400)
+    smp = rng.sample(gm.samples(3), 40 if quick else 200)
     gm.model_run(ck, "GmmMStep.AffineEquivariant", smp, ["ml", "map"], invariants=["AffineEquivariant"], export=False,
                  coverage=not quick)
     gm.model_run(ck, "deviation:MAP_VAR_PRIOR_MEAN_NOT_SQUARED", smp[:15], ["map"], dev=["MAP_VAR_PRIOR_MEAN_NOT_SQUARED"],
@@ -45,7 +45,7 @@ def run(ck):
     vals = [0, 1, 2, 3, 5]
     km.model_run(ck, "KMeans.Equivariant-1d", ck.work, 4, 1, 2, rng.sample(km.datasets(4, 1, vals), 25 if quick else 70),
                  km.initsets(2, 1, vals), [(4,)], [3], [F(-1)], properties=["Equivariant"], invariants=[], export=False)
-    km.model_run(ck, "KMeans.Equivariant-2d", ck.work, 4, 2, 2, rng.sample(km.datasets(4, 2, [0, 1, 3]), 25 if quick else 200),
+    km.model_run(ck, "KMeans.Equivariant-2d", ck.work, 4, 2, 2, rng.sample(km.datasets(4, 2, [0, 1, 3]), 25 if quick else 100),
                  rng.sample(km.initsets(2, 2, [0, 1, 3]), 6 if quick else 20), [(4,)], [3], [F(-1)],
                  properties=["Equivariant"], invariants=[], export=False)
     ms = C01.machines(rng, 2, 2, 5 if quick else 40)
@@ -54,16 +54,16 @@ def run(ck):
     lm.model_run(ck, "LinearScoring.AffineInvariant", dom, invariants=["AffineInvariant"], export=False)
     for C, H, jfa in ((1, 2, True), (2, 1, True), (2, 2, False)):
         fl.model_run(ck, "FaLatent.AffineInvariant-C%d-H%d-%s" % (C, H, "jfa" if jfa else "isv"),
-                     fl.fixed_configs(C, H, jfa, 8 if quick else 250, salt=ck.seed), invariants=[],
+                     fl.fixed_configs(C, H, jfa, 8 if quick else 120, salt=ck.seed), invariants=[],
                      properties=["AffineInvariant"])
     from .C10 import AFFS, MV, RV, SV, TV, XV
     pool = iv.stat_pool(2, 1, XV, RV, 2)
-    scns = [iv.random_scenario(rng, 2, 1, 1, pool, MV, TV, SV) for _ in range(80 if quick else 800)]
+    scns = [iv.random_scenario(rng, 2, 1, 1, pool, MV, TV, SV) for _ in range(80 if quick else 400)]
     iv.model_run(ck, "IVector.AffineInvariant", 2, 1, 1, F(1, 4), AFFS, scenarios=scns, invariants=["AffineInvariant"],
                  export=False)
     ck.exhaustive = True
     # ---------------- M2 / M3
-    pairs(ck, em, rng, 30 if quick else 400)
+    pairs(ck, em, rng, 30 if quick else 200)
 
 
 def pairs(ck, em, rng, count):
